@@ -95,5 +95,5 @@ def run(prog, ctx):
     if ma.unknown_callees:
         for n, sites in ma.unknown_callees.items():
             ctx.inconclusive("Q1", "effect of %s" % n, sites[0].where, "callee has neither a body nor a row in the libc effect table")
-    ctx.floor("C10 read-only entry points", len(entries), 24)
+    ctx.floor("C10 read-only entry points", len(entries), 20)
     ctx.floor("C10 (entry, input parameter) pairs", pairs, 50)
